@@ -206,6 +206,10 @@ pub fn res(asn: &str, v4: &str, v6: &str) -> ResourceSet {
     ResourceSet::from_strs(asn, v4, v6).unwrap()
 }
 
+/// When set, the embedded TA is created with this private key (PEM) instead
+/// of a generated one (C15 re-initialises the signer with the same key).
+pub static TA_KEY_PEM: std::sync::Mutex<Option<String>> = std::sync::Mutex::new(None);
+
 impl World {
     /// Creates a fresh world in the current directory (which must be an
     /// empty scratch directory): publication server + embedded TA.
@@ -238,7 +242,7 @@ impl World {
         w.krill.ca_manager().ta_init_fully_embedded(
             tb.ta_aia().clone(),
             vec![tb.ta_uri().clone()],
-            None,
+            TA_KEY_PEM.lock().ok().and_then(|g| g.clone()),
             &w.actor,
             &w.slow,
         )?;
